@@ -156,6 +156,10 @@ def run(ctx):
             srcs = [c for c in k.calls() if not c.cleanup and c.matches(UB + 'GenericUnstableBlocks::get_added_outpoints', UB + 'GenericUnstableBlocks::get_removed_outpoints')]
             okarg = all(P.call('*::block_hash', BLK)(e.operand(c.args[1])) and P.has(P.either(P.upvar(), P.var(), P.param()))(e.operand(c.args[2])) for c in srcs) and len(srcs) == 2
             ctx.check(okarg, 'R4', 'delta-keyed-by-block-and-address', srcs[0] if srcs else k, 'both accessors are keyed by the walked block\'s hash and the parsed address', 'delta accessors use other keys')
+    # the UTXO side nets created-and-spent outputs through the spent filter on both merged sources, as the
+    # balance side does by subtraction (shared with C01.R8)
+    from rules import c01
+    c01.r8(SubCtx(ctx, {'R8': 'R4'}))
     ap = ctx.fn('R4', 'ic_btc_canister::address_utxoset::AddressUtxoSet::apply_block')
     if ap:
         names = sorted({c.short.rsplit('::', 1)[-1] for c in ap.calls() if not c.cleanup and c.matches(UB + 'GenericUnstableBlocks::get_*')})
